@@ -144,10 +144,13 @@ class TaskLoader:
         # in the included file.
         with open(include_path, encoding="UTF-8") as file:
             include_code = file.read()
+        # The file is run in ONE fresh namespace (globals and locals being the
+        # same dict, like a module): functions defined in it resolve the file's
+        # own constants, imports and other functions through their globals.
         scope: Dict[str, Any] = {}
         try:
             # pylint: disable=exec-used
-            exec(include_code, {}, scope)
+            exec(include_code, scope)
         except SyntaxError as ex:
             syntax_err = TaskSyntaxError()
             syntax_err.add_file_context(
@@ -171,6 +174,7 @@ class TaskLoader:
             raise run_err from ex
 
         # 6. Update the current scope with the new symbols.
+        scope.pop("__builtins__", None)
         self._curr_exec_scope.update(scope)
 
         # 7. Update the cache.
